@@ -31,6 +31,8 @@ pub struct FnInfo {
     /// calls of the `#[track_caller]` bin accessors (bin / cas_bin / store_bin / next_table):
     /// (accessor, line of the method name)
     pub tc_calls: Vec<(String, usize)>,
+    /// receivers (last field / variable) of `.clone()` calls in the body
+    pub clone_recvs: Vec<String>,
 }
 
 fn last_field(e: &syn::Expr) -> String {
@@ -64,6 +66,8 @@ struct V<'a> {
     blocking: Vec<(String, usize)>,
     unparks: usize,
     tc_calls: Vec<(String, usize)>,
+    /// receivers (last field / variable) of `.clone()` calls
+    clone_recvs: Vec<String>,
 }
 
 impl<'a, 'ast> Visit<'ast> for V<'a> {
@@ -97,6 +101,9 @@ impl<'a, 'ast> Visit<'ast> for V<'a> {
         } else if name == "unpark" {
             self.unparks += 1;
         } else {
+            if name == "clone" && m.args.is_empty() {
+                self.clone_recvs.push(last_field(&m.receiver));
+            }
             if matches!(name.as_str(), "bin" | "cas_bin" | "store_bin" | "next_table") {
                 self.tc_calls.push((name.clone(), line_of(&m.method)));
             }
@@ -151,6 +158,7 @@ pub fn scan(file: &syn::File, fname: &str) -> (Vec<Site>, Vec<FnInfo>) {
             blocking: vec![],
             unparks: 0,
             tc_calls: Vec::new(),
+                clone_recvs: Vec::new(),
         };
         v.visit_block(&fr.f.block);
         fns.push(FnInfo {
@@ -168,6 +176,7 @@ pub fn scan(file: &syn::File, fname: &str) -> (Vec<Site>, Vec<FnInfo>) {
             unparks: v.unparks,
             tc_calls: v.tc_calls.clone(),
             arity: fr.f.sig.inputs.iter().filter(|a| matches!(a, syn::FnArg::Typed(_))).count(),
+            clone_recvs: { let mut c = v.clone_recvs.clone(); c.sort(); c.dedup(); c },
         });
         sites.extend(v.sites);
     }
@@ -186,6 +195,7 @@ pub fn scan(file: &syn::File, fname: &str) -> (Vec<Site>, Vec<FnInfo>) {
                 blocking: vec![],
                 unparks: 0,
                 tc_calls: Vec::new(),
+                clone_recvs: Vec::new(),
             };
             v.visit_block(&f.block);
             fns.push(FnInfo {
@@ -198,11 +208,158 @@ pub fn scan(file: &syn::File, fname: &str) -> (Vec<Site>, Vec<FnInfo>) {
                 unparks: v.unparks,
                 tc_calls: v.tc_calls.clone(),
                 arity: f.sig.inputs.len(),
+                clone_recvs: { let mut c = v.clone_recvs.clone(); c.sort(); c.dedup(); c },
             });
             sites.extend(v.sites);
         }
     }
     (sites, fns)
+}
+
+/// The lexical extent of a mutex guard: from `let g = <recv>.lock();` to `drop(g);` in the same
+/// block, or to the end of that block.
+pub struct LockExt {
+    pub file: String,
+    pub func: String,
+    pub line: usize,
+    pub recv: String,
+    pub guard: String,
+    /// closed by an explicit drop(g) (otherwise the end of the enclosing block)
+    pub explicit_drop: bool,
+    pub end_line: usize,
+    pub calls: Vec<String>,
+    pub blocking: Vec<(String, usize)>,
+    pub clone_recvs: Vec<String>,
+}
+
+fn lock_init(l: &syn::Local) -> Option<(String, String)> {
+    let init = l.init.as_ref()?;
+    if let syn::Expr::MethodCall(m) = &*init.expr {
+        if m.method == "lock" && m.args.is_empty() {
+            let g = match &l.pat {
+                syn::Pat::Ident(i) => i.ident.to_string(),
+                other => other.to_token_stream().to_string(),
+            };
+            return Some((g, m.receiver.to_token_stream().to_string().replace(' ', "")));
+        }
+    }
+    None
+}
+
+fn is_drop_of(st: &syn::Stmt, g: &str) -> bool {
+    if let syn::Stmt::Expr(syn::Expr::Call(c), _) = st {
+        let f = c.func.to_token_stream().to_string().replace(' ', "");
+        if (f == "drop" || f.ends_with("::drop")) && c.args.len() == 1 {
+            return c.args[0].to_token_stream().to_string().replace(' ', "") == g;
+        }
+    }
+    false
+}
+
+struct LockV<'a> {
+    file: &'a str,
+    func: String,
+    out: Vec<LockExt>,
+}
+
+impl<'a, 'ast> Visit<'ast> for LockV<'a> {
+    fn visit_block(&mut self, b: &'ast syn::Block) {
+        for (i, st) in b.stmts.iter().enumerate() {
+            if let syn::Stmt::Local(l) = st {
+                if let Some((g, recv)) = lock_init(l) {
+                    let mut v = V {
+                        file: self.file,
+                        ty: String::new(),
+                        func: self.func.clone(),
+                        sites: vec![],
+                        calls: vec![],
+                        blocking: vec![],
+                        unparks: 0,
+                        tc_calls: Vec::new(),
+                clone_recvs: Vec::new(),
+                    };
+                    let mut explicit = false;
+                    let mut end_line = b.brace_token.span.close().start().line;
+                    for later in &b.stmts[i + 1..] {
+                        if is_drop_of(later, &g) {
+                            explicit = true;
+                            end_line = line_of(later);
+                            break;
+                        }
+                        v.visit_stmt(later);
+                    }
+                    let mut calls = v.calls.clone();
+                    calls.sort();
+                    calls.dedup();
+                    self.out.push(LockExt {
+                        file: self.file.to_string(),
+                        func: self.func.clone(),
+                        line: line_of(l),
+                        recv,
+                        guard: g,
+                        explicit_drop: explicit,
+                        end_line,
+                        calls,
+                        blocking: v.blocking.clone(),
+                        clone_recvs: {
+                            let mut c = v.clone_recvs.clone();
+                            c.sort();
+                            c.dedup();
+                            c
+                        },
+                    });
+                }
+            }
+        }
+        visit::visit_block(self, b);
+    }
+}
+
+pub fn scan_locks(file: &syn::File, fname: &str) -> Vec<LockExt> {
+    let mut out = Vec::new();
+    for fr in impl_fns(file) {
+        let mut v = LockV { file: fname, func: fr.f.sig.ident.to_string(), out: vec![] };
+        v.visit_block(&fr.f.block);
+        out.extend(v.out);
+    }
+    out
+}
+
+pub fn locks_to_coq(exts: &[LockExt], n_lock_sites: usize) -> String {
+    let mut s = String::from(
+        "(* GENERATED by /verif/translator from /repo/src. Do not edit. *)\n\
+         From Coq Require Import List String NArith.\nImport ListNotations.\nOpen Scope string_scope.\n\n\
+         (* one row per `let g = x.lock();`: the calls (name/arity) and blocking sites (lock / park / yield_now /\n\
+            spin_loop, with line) in the lexical extent of the guard g *)\n\
+         Record lockext := { l_file : string; l_fn : string; l_line : N; l_recv : string; l_guard : string;\n\
+           l_explicit_drop : bool; l_end : N; l_calls : list string; l_blocking : list (string * N);\n\
+           l_clone_recvs : list string (* what `.clone()` is called on inside the extent *) }.\n\n\
+         Definition lock_extents : list lockext := [\n",
+    );
+    s.push_str(
+        &exts
+            .iter()
+            .map(|e| {
+                format!(
+                    "  {{| l_file := {}; l_fn := {}; l_line := {}%N; l_recv := {}; l_guard := {}; l_explicit_drop := {}; l_end := {}%N;\n     l_calls := [{}];\n     l_blocking := [{}]; l_clone_recvs := [{}] |}}",
+                    q(&e.file),
+                    q(&e.func),
+                    e.line,
+                    q(&e.recv),
+                    q(&e.guard),
+                    e.explicit_drop,
+                    e.end_line,
+                    e.calls.iter().map(|c| q(c)).collect::<Vec<_>>().join("; "),
+                    e.blocking.iter().map(|(k, l)| format!("({}, {}%N)", q(k), l)).collect::<Vec<_>>().join("; "),
+                    e.clone_recvs.iter().map(|c| q(c)).collect::<Vec<_>>().join("; ")
+                )
+            })
+            .collect::<Vec<_>>()
+            .join(";\n"),
+    );
+    s.push_str("\n].\n\n");
+    s.push_str(&format!("(* number of `.lock()` call sites in the sources *)\nDefinition n_lock_sites : N := {}%N.\n", n_lock_sites));
+    s
 }
 
 fn q(s: &str) -> String {
@@ -217,7 +374,8 @@ pub fn to_coq(sites: &[Site], fns: &[FnInfo]) -> String {
          Record site := { s_file : string; s_ty : string; s_fn : string; s_line : N; s_field : string;\n\
          \x20 s_method : string; s_ords : list ord }.\n\
          Record fninfo := { f_file : string; f_ty : string; f_name : string; f_line : N;\n\
-         \x20 f_calls : list string; f_blocking : list string; f_unparks : N; f_arity : N }.\n\n\
+         \x20 f_calls : list string; f_blocking : list string; f_unparks : N; f_arity : N;\n\
+         \x20 f_clone_recvs : list string }.\n\n\
          Definition sites : list site := [\n",
     );
     s.push_str(
@@ -243,7 +401,7 @@ pub fn to_coq(sites: &[Site], fns: &[FnInfo]) -> String {
         &fns.iter()
             .map(|f| {
                 format!(
-                    "  {{| f_file := {}; f_ty := {}; f_name := {}; f_line := {}%N; f_calls := [{}]; f_blocking := [{}]; f_unparks := {}%N; f_arity := {}%N |}}",
+                    "  {{| f_file := {}; f_ty := {}; f_name := {}; f_line := {}%N; f_calls := [{}]; f_blocking := [{}]; f_unparks := {}%N; f_arity := {}%N; f_clone_recvs := [{}] |}}",
                     q(&f.file),
                     q(&f.ty),
                     q(&f.name),
@@ -251,7 +409,8 @@ pub fn to_coq(sites: &[Site], fns: &[FnInfo]) -> String {
                     f.calls.iter().map(|c| q(c)).collect::<Vec<_>>().join("; "),
                     f.blocking.iter().map(|b| q(&b.0)).collect::<Vec<_>>().join("; "),
                     f.unparks,
-                    f.arity
+                    f.arity,
+                    f.clone_recvs.iter().map(|c| q(c)).collect::<Vec<_>>().join("; ")
                 )
             })
             .collect::<Vec<_>>()
